@@ -185,3 +185,20 @@ def cred_tables():
     text += "Definition DEF_UFRAG_LEN : nat := %s.\nDefinition DEF_PWD_LEN : nat := %s.\n" % (mu.group(1), mp.group(1))
     vlib.write_if_changed(os.path.join(vlib.COQ, "Gen", "IceChars.v"), text)
     return {"chars": chars, "ufrag": int(mu.group(1)), "pwd": int(mp.group(1))}, ""
+
+
+def select_shape():
+    """shape check for coq/Agent/SelectModel.v: conn_check_update_selected_pair replaces the selected pair only by a strictly higher
+    priority; nice_component_restart resets that priority to 0."""
+    cc = re.sub(r"\s+", " ", re.sub(r"/\*.*?\*/", " ", open(os.path.join(vlib.REPO, "agent/conncheck.c")).read(), flags=re.S))
+    cp = re.sub(r"\s+", " ", re.sub(r"/\*.*?\*/", " ", open(os.path.join(vlib.REPO, "agent/component.c")).read(), flags=re.S))
+    m = re.search(r"void conn_check_update_selected_pair \(NiceAgent \*agent, NiceComponent \*component, CandidateCheckPair \*pair\) \{(.*?)\} /\*|void conn_check_update_selected_pair \(NiceAgent \*agent, NiceComponent \*component, CandidateCheckPair \*pair\) \{(.*?)\n", cc)
+    need_cc = ["g_assert (pair->nominated); if (pair->priority > component->selected_pair.priority) {", "cpair.priority = pair->priority;",
+               "nice_component_update_selected_pair (agent, component, &cpair);"]
+    for n in need_cc:
+        if n not in cc:
+            return None, "agent/conncheck.c no longer contains the modelled statement `%s`" % n
+    for n in ["cmp->selected_pair.priority = 0;", "component->selected_pair.priority = pair->priority;"]:
+        if n not in cp:
+            return None, "agent/component.c no longer contains the modelled statement `%s`" % n
+    return {"ok": True}, ""
